@@ -373,6 +373,30 @@ class ArgumentsTraceOf(Contract):
         it.st.check("P3:recording-the-arguments-never-fails-whatever-the-callers-keywords-are-called", z3.BoolVal(False))
 
 
+class ResultTraceOf(ArgumentsTraceOf):
+    """ResultTrace.of(value): "recording ... outcome" - the record holds the function's result itself, whatever it is (0, "",
+    an empty list, False and None are results too) and building it never looks at the value (its __bool__ may raise)."""
+    file, func, name = "helpers/tracing.py", "ResultTrace.of", "C18/tracing:ResultTrace.of"
+
+    def setup(self, it, env):
+        st = it.st
+        self.built = []
+        info = repo_class(it, "helpers/tracing.py", "ResultTrace")
+        self.value = st.fresh_val("result")
+        f = it.class_attr(info, "of", V.VCls(z3.IntVal(info.cid)))
+        return st.fun_of(f), CallArgs([self.value])
+
+    def on_return(self, it, ret):
+        st = it.st
+        st.check("P3:one-record-is-built-for-the-result", z3.BoolVal(len(self.built) == 1))
+        rec = self.built[0].kw.get("result") if len(self.built) == 1 else None
+        st.check("P3:the-recorded-outcome-is-the-functions-result-itself(falsy-results-included)",
+                 z3.BoolVal(False) if rec is None else rec == self.value)
+
+    def on_raise(self, it, exc):
+        it.st.check("P3:recording-the-result-never-fails(the-value-is-not-inspected)", z3.BoolVal(False))
+
+
 class TracedSync(_Traced):
     file, func, name = TRACE, "_traced_sync.traced", "C18/tracing:_traced_sync.traced"
 
@@ -601,5 +625,5 @@ class MimicSites(Lemma):
                     note="; ".join(missing))
 
 
-CONTRACTS = [ExecCall(), ExecMethod(), ExecGet(), WrapAsync(), WrapAsyncFactory(), TracedSync(), TracedAsync(), ArgumentsTraceOf(), MimicSync(),
+CONTRACTS = [ExecCall(), ExecMethod(), ExecGet(), WrapAsync(), WrapAsyncFactory(), TracedSync(), TracedAsync(), ArgumentsTraceOf(), ResultTraceOf(), MimicSync(),
              MimicAsync(), MimicSites()]
